@@ -1746,21 +1746,24 @@ func findRequiredLandmarkChainLeftToRight(r *Runner, chain *syntax.RequiredLandm
 			return false
 		}
 
-		nextStart := first.End
+		// Each later landmark is searched from the earliest position at which the previous one
+		// can end, whichever alternative and repeat count the match will really use there.
+		nextStart := first.CoreStart + minRequiredLandmarkLength(chain.Landmarks[0])
 		for i := 1; i < len(chain.Landmarks); i++ {
 			landmark, ok := findNextRequiredLandmarkRunes(r.Runtext, nextStart, r.Runtextend, chain.Landmarks[i])
 			if !ok {
 				r.Runtextpos = r.Runtextend
 				return false
 			}
-			nextStart = landmark.End
+			nextStart = landmark.CoreStart + minRequiredLandmarkLength(chain.Landmarks[i])
 		}
 
-		candidate := first.Start
-		if candidate < r.Runtextpos {
-			candidate = r.Runtextpos
-		}
-		for candidate > r.Runtextpos && chain.LeadingLoopSet.CharIn(r.Runtext[candidate-1]) {
+		// The first landmark found is not necessarily the one the match will use (a later
+		// alternative may start earlier thanks to its leading whitespace), so rewind over
+		// everything that can sit between the start of the match and a first landmark core.
+		candidate := first.CoreStart
+		for candidate > r.Runtextpos && (chain.LeadingLoopSet.CharIn(r.Runtext[candidate-1]) ||
+			inLeadingWhitespaceOfLandmark(chain.Landmarks[0], r.Runtext[candidate-1])) {
 			candidate--
 		}
 		if hasRequiredLengthAt(r, candidate) {
@@ -1772,6 +1775,32 @@ func findRequiredLandmarkChainLeftToRight(r *Runner, chain *syntax.RequiredLandm
 	}
 
 	r.Runtextpos = r.Runtextend
+	return false
+}
+
+func minRequiredLandmarkLength(landmark syntax.RequiredLandmark) int {
+	min := -1
+	for _, alt := range landmark.Alternatives {
+		l := alt.MinRepeat
+		if len(alt.Literal) > 0 {
+			l = len(alt.Literal)
+		}
+		if min < 0 || l < min {
+			min = l
+		}
+	}
+	if min < 1 {
+		min = 1
+	}
+	return min
+}
+
+func inLeadingWhitespaceOfLandmark(landmark syntax.RequiredLandmark, ch rune) bool {
+	for _, alt := range landmark.Alternatives {
+		if alt.LeadingWhitespaceSet != nil && alt.LeadingWhitespaceSet.CharIn(ch) {
+			return true
+		}
+	}
 	return false
 }
 
@@ -1816,11 +1845,28 @@ func requiredLandmarkAlternativeMatch(input []rune, start, endAt int, alt syntax
 		if end-start < alt.MinRepeat {
 			return requiredLandmarkMatch{}, false
 		}
+		// The core may match any length between the minimum and what is available: report the
+		// earliest end (so that a later landmark overlapping the greedy run is not missed) and
+		// accept required trailing whitespace after any of those lengths.
+		longest := end
+		end = start + alt.MinRepeat
+		if alt.RequireWhitespaceAfter {
+			found := false
+			for e := end; e <= longest && e < endAt; e++ {
+				if alt.TrailingWhitespaceSet != nil && alt.TrailingWhitespaceSet.CharIn(input[e]) {
+					found = true
+					break
+				}
+			}
+			if !found {
+				return requiredLandmarkMatch{}, false
+			}
+		}
 	} else {
 		return requiredLandmarkMatch{}, false
 	}
 
-	if alt.RequireWhitespaceAfter &&
+	if alt.RequireWhitespaceAfter && len(alt.Literal) > 0 &&
 		(end >= endAt || alt.TrailingWhitespaceSet == nil || !alt.TrailingWhitespaceSet.CharIn(input[end])) {
 		return requiredLandmarkMatch{}, false
 	}
